@@ -9,4 +9,4 @@ Separate Extraction
   Validator.init_vst Validator.validate_pattern
   RuleDecision.validate_flags RuleDecision.check_regex RuleDecision.check_file RuleDecision.validate_seq
   RuleDecision.dirty_vst
-  FragParser.recognises FragParser.in_fragment.
+  FragParser.recognises FragParser.in_fragment FragParser.in_grammar.
